@@ -28,13 +28,33 @@ def walk_tokens(group):
             yield from walk_tokens(x)
 
 
+def calls_in_unsafe(group):
+    """names of the functions / methods called directly inside `unsafe { .. }` blocks (anywhere below `group`), in order"""
+    out = []
+    items = group.items
+    for i, x in enumerate(items):
+        if isinstance(x, Group):
+            if x.open == "{" and i > 0 and is_tok(items[i - 1], "unsafe"):
+                def calls(g):
+                    its = g.items
+                    for j, y in enumerate(its):
+                        if isinstance(y, Group):
+                            if y.open == "(" and j > 0 and is_tok(its[j - 1], kind="ident"):
+                                out.append(its[j - 1].text)
+                            calls(y)
+                calls(x)
+            else:
+                out.extend(calls_in_unsafe(x))
+    return out
+
+
 def scan(repo="/repo"):
     crates = [c for c in LIB_CRATES if os.path.isdir(os.path.join(repo, c, "src"))]
     # any other workspace member with a src/ that is not test / bench tooling is scanned too
     for d in sorted(os.listdir(repo)):
         if d.startswith("paseto-") and d not in crates and d not in ("paseto-test", "paseto-bench") and os.path.isdir(os.path.join(repo, d, "src")):
             crates.append(d)
-    policy, allowed, unsafe_files, shared = [], [], [], []
+    policy, allowed, unsafe_files, shared, unsafe_calls = [], [], [], [], []
     for c in crates:
         root = os.path.join(repo, c, "src")
         pol = "none"
@@ -57,6 +77,8 @@ def scan(repo="/repo"):
                 n_unsafe = sum(1 for k in toks if k.kind == "ident" and k.text == "unsafe")
                 if n_unsafe:
                     unsafe_files.append((rel, n_unsafe))
+                if n_unsafe and "/lc/" not in rel.replace(os.sep, "/"):
+                    unsafe_calls += [(rel, nm) for nm in calls_in_unsafe(t)]
                 for i, k in enumerate(toks):
                     if k.kind != "ident":
                         continue
@@ -77,7 +99,7 @@ def scan(repo="/repo"):
                             pass
         policy.append((c, pol))
     shared = sorted(set(shared))
-    return dict(crates=crates, policy=policy, allowed=sorted(set(allowed)), unsafe_files=sorted(unsafe_files), shared=shared)
+    return dict(unsafe_calls=unsafe_calls, crates=crates, policy=policy, allowed=sorted(set(allowed)), unsafe_files=sorted(unsafe_files), shared=shared)
 
 
 def q(s):
@@ -98,6 +120,8 @@ def emit(repo="/repo"):
          "def unsafeFiles : List (String × Nat) := [%s]" % ", ".join("(%s, %d)" % (q(a), b) for a, b in d["unsafe_files"]),
          "/-- (file, construct): interior mutability, `static mut`, thread locals, lazily initialised globals, locks, atomics -/",
          "def sharedState : List (String × String) := [%s]" % ", ".join("(%s, %s)" % (q(a), q(b)) for a, b in d["shared"]),
+         "/-- (file, function called inside an `unsafe { }` block), outside the aws-lc wrapper module (which `ffiscan` translates) -/",
+         "def unsafeCalls : List (String × String) := [%s]" % ", ".join("(%s, %s)" % (q(a), q(b)) for a, b in d["unsafe_calls"]),
          "end PM.Extracted.Source", ""]
     return "\n".join(L), d
 
